@@ -43,6 +43,7 @@ def run_case_shards(ctx, shards, jobs=16, gen_timeout=600, coq_timeout=900):
     fails = {'roundtrip_failures': [], 'name_failures': []}
     files = []
     samples = []
+    hashes = set()
     for sh in shards:
         vfile = f'cases_persist_{ctx.id}_{sh["name"]}.v'
         args = ['persist-cases', '-n', sh['n'], '-seed', sh['seed'], '-out', f'{vlib.COQ}/{vfile}', '-name', sh['name'],
@@ -60,7 +61,8 @@ def run_case_shards(ctx, shards, jobs=16, gen_timeout=600, coq_timeout=900):
                 f['shard'] = sh
                 fails[k].append(f)
         samples += st.get('samples') or []
-        merge_counts(stats, {k: v for k, v in st.items() if k not in ('roundtrip_failures', 'name_failures', 'samples')})
+        hashes.update(st.get('hashes') or [])
+        merge_counts(stats, {k: v for k, v in st.items() if k not in ('roundtrip_failures', 'name_failures', 'samples', 'hashes', 'distinct_nontrivial')})
         files.append((sh, vfile))
 
     def ev(item):
@@ -79,6 +81,7 @@ def run_case_shards(ctx, shards, jobs=16, gen_timeout=600, coq_timeout=900):
                     pass
     stats.update(fails)
     stats['samples'] = samples[:6]
+    stats['distinct_nontrivial'] = len(hashes)     # distinct across all shards (hash of the case without its id), non-empty input
     return stats, results
 
 
